@@ -13,9 +13,14 @@ that offset, the offset is a line start, the record lies inside the fsynced pref
 payload of closed members), and the byte ranges of different occurrences are pairwise disjoint.
 
 * `fin_owns_line_this_tree` — the statement about the checked tree (F46 85f4c48 + F47 efaf20c committed; shape
-  parameters computed by `Tie.ToolsToFile` and decided `true`);
-* `fin_owns_line_fixed`  — full statement for the tree with fix F47 (`Cfg.sealsTail`): every configuration,
-  initial directory, event list (incl. foreign files and whole-record appends of a second writer), fault schedule.
+  parameters computed by `Tie.ToolsToFile`: `oneWrite`, `sealsTail` decided `true`, `sealReadWarns` = which of the two
+  accepted `sealTornTail` skeletons the tree has); on the F47b shape it carries the hypothesis `ReadsOk io`;
+* `fin_owns_line_fixed`  — the tree with fix F47 (`Cfg.sealsTail`): every configuration, initial directory, event list
+  (incl. foreign files and whole-record appends of a second writer), fault schedule; hypothesis guarded by the shape:
+  `c.sealReadWarns = true → ReadsOk io`. Corollaries `fin_owns_line_committed` (committed F47: unconditional — an
+  unreadable file is a fatal exit) and `fin_owns_line_F47b_partial` (F47b: every re-opened file is readable).
+* `fin_owns_line_F47b_full_false` — under F47b the unconditional statement is **false** (witness: unreadable torn file
+  `"A"`, message `"B"` → `"AB\n"`, `B` FINished); `fin_owns_line_unreadable_partial` — what still holds for unreadable files.
 * `fin_owns_line_excl`   — the same without the fix whenever files are opened with O_EXCL (gzip / rotate-interval).
 * `fin_owns_line_partial` — without the fix, plain append mode: under the forced hypothesis that every
   pre-existing and every foreign file is empty or ends in "\n".
@@ -72,12 +77,30 @@ theorem evOk_of_envOk {c : Cfg} {nlAll : Bool} {e : Ev} (h : EnvOk c nlAll e) : 
   cases e <;> first | exact h | exact h.2 | trivial
 
 /-- **FIN implies an own durable line — tree with fix F47.** Every configuration, every initial directory (torn
-tails included), every event list, every fault schedule. -/
-theorem fin_owns_line_fixed (c : Cfg) (hfix : c.sealsTail = true) (io : Nat → Fault) (fs0 : FS)
+tails included), every event list, every fault schedule. Hypothesis, guarded by the shape of `sealTornTail`: on the
+committed shape (`sealReadWarns = false`: a failed read of the last byte is a fatal exit) there is none; on the F47b
+shape (`sealReadWarns = true`: the failed read is a warning and the file is appended to unsealed) every read of a last
+byte succeeds — **every existing file the tool appends to is readable by it** (`ReadsOk io`). -/
+theorem fin_owns_line_fixed (c : Cfg) (hfix : c.sealsTail = true) (io : Nat → Fault)
+    (hrd : c.sealReadWarns = true → ReadsOk io) (fs0 : FS)
     (evs : List (Ev × Bool)) (henv : ∀ e ∈ evs, EnvOk c false e.1) :
     LinesSafe (run c io (init fs0) evs).fs (run c io (init fs0) evs).finished :=
-  linesSafe_of_ownRecs (lines_run io evs _ (Or.inl hfix) (fun e he => evOk_of_envOk (henv e he))
+  linesSafe_of_ownRecs (lines_run io evs _ (Or.inl ⟨hfix, hrd⟩) (fun e he => evOk_of_envOk (henv e he))
     (lines_init false c fs0 (fun h => by cases h))).own
+
+/-- **… committed F47 (/repo efaf20c): unconditional.** Also when files cannot be read (`Fault.rdErr` anywhere in the
+schedule): the tool exits before it writes or FINishes anything (`unreadable_torn_file_is_fatal_committed`). -/
+theorem fin_owns_line_committed (c : Cfg) (hfix : c.sealsTail = true) (hshape : c.sealReadWarns = false)
+    (io : Nat → Fault) (fs0 : FS) (evs : List (Ev × Bool)) (henv : ∀ e ∈ evs, EnvOk c false e.1) :
+    LinesSafe (run c io (init fs0) evs).fs (run c io (init fs0) evs).finished :=
+  fin_owns_line_fixed c hfix io (fun h => by rw [hshape] at h; cases h) fs0 evs henv
+
+/-- **… F47b (`fixes/F47b_seal_unreadable_file.patch`): partial.** Forced hypothesis `ReadsOk io`: every existing file
+the tool re-opens for appending is readable by it. Without it: `fin_owns_line_F47b_full_false`. -/
+theorem fin_owns_line_F47b_partial (c : Cfg) (hfix : c.sealsTail = true) (io : Nat → Fault) (hreadable : ReadsOk io)
+    (fs0 : FS) (evs : List (Ev × Bool)) (henv : ∀ e ∈ evs, EnvOk c false e.1) :
+    LinesSafe (run c io (init fs0) evs).fs (run c io (init fs0) evs).finished :=
+  fin_owns_line_fixed c hfix io (fun _ => hreadable) fs0 evs henv
 
 /-- **… without the fix, O_EXCL modes** (gzip or rotate-interval: the tool never re-opens an existing file). -/
 theorem fin_owns_line_excl (c : Cfg) (hx : c.excl = true) (io : Nat → Fault) (fs0 : FS)
@@ -87,7 +110,8 @@ theorem fin_owns_line_excl (c : Cfg) (hx : c.excl = true) (io : Nat → Fault) (
     (lines_init false c fs0 (fun h => by cases h))).own
 
 /-- **… without the fix, plain append mode: partial.** Forced hypothesis: every pre-existing file and every file
-another process drops is empty or ends in "\n" (no writer ever died inside a record, no short write). -/
+another process drops is empty or ends in "\n" (no writer ever died inside a record, no short write). Holds for every
+shape and every fault schedule — in particular under F47b when files are unreadable (`fin_owns_line_unreadable_partial`). -/
 theorem fin_owns_line_partial (c : Cfg) (io : Nat → Fault) (fs0 : FS)
     (hfs0 : ∀ p f, fs0.get p = some f → nlEnded f.content)
     (evs : List (Ev × Bool)) (henv : ∀ e ∈ evs, EnvOk c true e.1) :
@@ -97,8 +121,10 @@ theorem fin_owns_line_partial (c : Cfg) (io : Nat → Fault) (fs0 : FS)
 
 /-- **Restart.** A later run that starts on the directory an earlier run left behind — killed anywhere, also between
 the two writes of a record — with the earlier run's FIN log `fin1` (each entry owning its line in `fs1`): with fix F47
-everything either run FINished owns its line at the end. -/
-theorem restart_keeps_lines (c : Cfg) (hfix : c.sealsTail = true) (io : Nat → Fault) (fs1 : FS) (fin1 : List Msg)
+everything either run FINished owns its line at the end. Hypothesis guarded by the shape as in `fin_owns_line_fixed`:
+none on the committed shape; under F47b the later run can read the files it re-opens (`ReadsOk io`). -/
+theorem restart_keeps_lines (c : Cfg) (hfix : c.sealsTail = true) (io : Nat → Fault)
+    (hrd : c.sealReadWarns = true → ReadsOk io) (fs1 : FS) (fin1 : List Msg)
     (h1 : OwnRecs fs1 fin1) (evs : List (Ev × Bool)) (henv : ∀ e ∈ evs, EnvOk c false e.1) :
     LinesSafe (run c io { init fs1 with finished := fin1 } evs).fs
       (run c io { init fs1 with finished := fin1 } evs).finished := by
@@ -112,12 +138,13 @@ theorem restart_keeps_lines (c : Cfg) (hfix : c.sealsTail = true) (io : Nat → 
     cases hpre with
     | inl hall => cases hall
     | inr ho => simp [init] at ho
-  exact linesSafe_of_ownRecs (lines_run io evs _ (Or.inl hfix) (fun e he => evOk_of_envOk (henv e he)) h0).own
+  exact linesSafe_of_ownRecs (lines_run io evs _ (Or.inl ⟨hfix, hrd⟩) (fun e he => evOk_of_envOk (henv e he)) h0).own
 
 /-- **Un-FINished messages.** While the tool runs, every written message not yet FINished owns a line too — durable
 already, or visible through the open descriptor — apart from every other record (so the FINs after the next `Sync()`
-acknowledge distinct lines). -/
-theorem pending_owns_line_fixed (c : Cfg) (hfix : c.sealsTail = true) (io : Nat → Fault) (fs0 : FS)
+acknowledge distinct lines). Hypothesis guarded by the shape as in `fin_owns_line_fixed` (F47b: `ReadsOk io`). -/
+theorem pending_owns_line_fixed (c : Cfg) (hfix : c.sealsTail = true) (io : Nat → Fault)
+    (hrd : c.sealReadWarns = true → ReadsOk io) (fs0 : FS)
     (evs : List (Ev × Bool)) (henv : ∀ e ∈ evs, EnvOk c false e.1)
     (hrun : (run c io (init fs0) evs).status = .running) :
     ∃ rf rp : List Rec, rf.map (·.m) = (run c io (init fs0) evs).finished ∧
@@ -125,7 +152,7 @@ theorem pending_owns_line_fixed (c : Cfg) (hfix : c.sealsTail = true) (io : Nat 
       (∀ r ∈ rf, OwnsLine (run c io (init fs0) evs).fs r) ∧
       (∀ r ∈ rp, FinOk (run c io (init fs0) evs).fs r ∨ OpenOk c.gzip (run c io (init fs0) evs) r) ∧
       (rp ++ rf).Pairwise Apart := by
-  obtain ⟨rf, rp, a, b, d, e, f⟩ := (lines_run io evs _ (Or.inl hfix) (fun e he => evOk_of_envOk (henv e he))
+  obtain ⟨rf, rp, a, b, d, e, f⟩ := (lines_run io evs _ (Or.inl ⟨hfix, hrd⟩) (fun e he => evOk_of_envOk (henv e he))
     (lines_init false c fs0 (fun h => by cases h))).pending_own hrun
   exact ⟨rf, rp, a, b, fun r hr => ownsLine_of_finOk (d r hr), e, f⟩
 
@@ -137,7 +164,7 @@ def FinOwnsLineFull (c : Cfg) : Prop :=
     LinesSafe (run c io (init fs0) evs).fs (run c io (init fs0) evs).finished
 
 /-- plain append mode as shipped: no gzip, no rotation, no work dir, max-in-flight 1, two writes, no sealing -/
-def cfgAppend : Cfg := ⟨false, 0, 0, false, false, 1, false, false, false, false⟩
+def cfgAppend : Cfg := ⟨false, 0, 0, false, false, 1, false, false, false, false, false⟩
 def noFault : Nat → Fault := fun _ => .ok
 def pT : Path := ⟨true, "t", 0⟩
 def mA : Msg := ⟨1, [65]⟩
@@ -164,23 +191,16 @@ theorem domOk_fsTorn : DomOk fsTorn := by
   · subst e; simp [fsTorn, FS.set]
   · simp [fsTorn, FS.set, FS.empty, e] at hp
 
-/-- `B` is FINished but owns no line: the only file is `"AB\n"` and `"B\n"` does not start a line in it -/
-theorem torn_tail_append_not_safe :
-    ¬ LinesSafe (run cfgAppend noFault (init fsTorn) evB).fs (run cfgAppend noFault (init fsTorn) evB).finished := by
-  obtain ⟨hfin, hget, hdom⟩ := torn_tail_append_witness
+/-- a directory whose only file `pT` reads `"AB\n"`: `B` FINished owns no line — `"B\n"` does not start a line in it -/
+theorem ab_file_not_safe (fs : FS) (hget : fs.get pT = some ⟨[65, 66, 10], [], 3⟩)
+    (honly : ∀ p, fs.get p ≠ none → p = pT) : ¬ LinesSafe fs [mB] := by
   intro ⟨rs, hm, hv, _⟩
-  rw [hfin] at hm
   cases rs with
   | nil => simp at hm
   | cons r rest =>
     simp only [List.map_cons, List.cons.injEq] at hm
     obtain ⟨f, hg, hrec, hstart, _⟩ := hv r (List.mem_cons_self ..)
-    have hwf : cfgAppend.WF := Or.inr (by decide)
-    have hd := (noOv_run hwf noFault evB _ (noOv_init cfgAppend fsTorn domOk_fsTorn)).dom
-    have hp : r.path = pT := by
-      have := hd r.path (by rw [hg]; simp)
-      rw [hdom] at this
-      simpa using this
+    have hp : r.path = pT := honly r.path (by rw [hg]; simp)
     rw [hp, hget] at hg
     cases hg
     rw [hm.1] at hrec
@@ -194,17 +214,95 @@ theorem torn_tail_append_not_safe :
       simp at this
       omega
 
+/-- `B` is FINished but owns no line: the only file is `"AB\n"` and `"B\n"` does not start a line in it -/
+theorem torn_tail_append_not_safe :
+    ¬ LinesSafe (run cfgAppend noFault (init fsTorn) evB).fs (run cfgAppend noFault (init fsTorn) evB).finished := by
+  obtain ⟨hfin, hget, hdom⟩ := torn_tail_append_witness
+  rw [hfin]
+  apply ab_file_not_safe _ hget
+  intro p hp
+  have hwf : cfgAppend.WF := Or.inr (by decide)
+  have hd := (noOv_run hwf noFault evB _ (noOv_init cfgAppend fsTorn domOk_fsTorn)).dom p hp
+  rw [hdom] at hd
+  simpa using hd
+
 /-- **the full statement is false for the shipped shape** (plain append mode, no fix F47) -/
 theorem fin_owns_line_full_false : ¬ FinOwnsLineFull cfgAppend :=
   fun h => torn_tail_append_not_safe (h noFault fsTorn evB (by decide))
 
-/-- … and with fix F47 the same run seals the torn tail first: the file reads `"A\nB\n"`, `B` owns the second line -/
-theorem torn_tail_sealed_with_F47 :
-    (run { cfgAppend with sealsTail := true } noFault (init fsTorn) evB).finished = [mB] ∧
-    (run { cfgAppend with sealsTail := true } noFault (init fsTorn) evB).fs.get pT = some ⟨[65, 10, 66, 10], [], 4⟩ ∧
-    LinesSafe (run { cfgAppend with sealsTail := true } noFault (init fsTorn) evB).fs
-      (run { cfgAppend with sealsTail := true } noFault (init fsTorn) evB).finished :=
-  ⟨by decide, by decide, fin_owns_line_fixed _ rfl noFault fsTorn evB (fun e he => by simp [evB] at he; subst he; trivial)⟩
+/-- … and with fix F47 — in both accepted shapes of `sealTornTail` — the same run (the file is readable) seals the torn
+tail first: the file reads `"A\nB\n"`, `B` owns the second line -/
+theorem torn_tail_sealed_with_F47 (w : Bool) :
+    (run { cfgAppend with sealsTail := true, sealReadWarns := w } noFault (init fsTorn) evB).finished = [mB] ∧
+    (run { cfgAppend with sealsTail := true, sealReadWarns := w } noFault (init fsTorn) evB).fs.get pT
+      = some ⟨[65, 10, 66, 10], [], 4⟩ ∧
+    LinesSafe (run { cfgAppend with sealsTail := true, sealReadWarns := w } noFault (init fsTorn) evB).fs
+      (run { cfgAppend with sealsTail := true, sealReadWarns := w } noFault (init fsTorn) evB).finished :=
+  ⟨by cases w <;> decide, by cases w <;> decide,
+   fin_owns_line_fixed _ rfl noFault (fun _ t => by simp [noFault]) fsTorn evB
+     (fun e he => by simp [evB] at he; subst he; trivial)⟩
+
+/-! ### round 11: the file cannot be read (write-only file, drop-box permissions) — committed F47 vs. follow-up F47b -/
+
+/-- every existing file is unreadable: each read of a last byte fails (all other calls succeed) -/
+def unreadable : Nat → Fault := fun _ => .rdErr
+/-- plain append mode on the tree with F46 + F47, `sealTornTail` as committed -/
+def cfgCommitted : Cfg := { cfgAppend with oneWrite := true, sealsTail := true }
+/-- … and with the follow-up F47b -/
+def cfgWarns : Cfg := { cfgCommitted with sealReadWarns := true }
+
+/-- **committed F47, unreadable torn file `"A"`, message `"B"`**: the tool exits (`os.Exit(1)` in `updateFile`), nothing
+is FINished, the file is unchanged (so `fin_owns_line_committed` has nothing to excuse) -/
+theorem unreadable_torn_file_is_fatal_committed :
+    (run cfgCommitted unreadable (init fsTorn) evB).status = .fatalExit ∧
+    (run cfgCommitted unreadable (init fsTorn) evB).finished = [] ∧
+    (run cfgCommitted unreadable (init fsTorn) evB).fs.get pT = some ⟨[65], [], 1⟩ := by decide
+
+/-- **F47b, the same scenario**: warning, the record is appended to the torn tail: the file reads `"AB\n"`, `B` is
+FINished, the tool keeps running -/
+theorem unreadable_torn_file_witness :
+    (run cfgWarns unreadable (init fsTorn) evB).status = .running ∧
+    (run cfgWarns unreadable (init fsTorn) evB).finished = [mB] ∧
+    (run cfgWarns unreadable (init fsTorn) evB).fs.get pT = some ⟨[65, 66, 10], [], 3⟩ ∧
+    (run cfgWarns unreadable (init fsTorn) evB).fs.dom = [pT, pT, pT] := by decide
+
+theorem unreadable_torn_file_not_safe :
+    ¬ LinesSafe (run cfgWarns unreadable (init fsTorn) evB).fs (run cfgWarns unreadable (init fsTorn) evB).finished := by
+  obtain ⟨_, hfin, hget, hdom⟩ := unreadable_torn_file_witness
+  rw [hfin]
+  apply ab_file_not_safe _ hget
+  intro p hp
+  have hwf : cfgWarns.WF := Or.inr (by decide)
+  have hd := (noOv_run hwf unreadable evB _ (noOv_init cfgWarns fsTorn domOk_fsTorn)).dom p hp
+  rw [hdom] at hd
+  simpa using hd
+
+/-- **under F47b the unconditional statement is false**: without `ReadsOk` the torn tail of an unreadable file is
+appended to (what F47b deliberately trades for not dying on a write-only file) -/
+theorem fin_owns_line_F47b_full_false : ¬ FinOwnsLineFull cfgWarns :=
+  fun h => unreadable_torn_file_not_safe (h unreadable fsTorn evB (by decide))
+
+/-- … while for the committed shape it is true (`FinOwnsLineFull` has no foreign activity, so `EnvOk` is trivial) -/
+theorem fin_owns_line_committed_full (c : Cfg) (hfix : c.sealsTail = true) (hshape : c.sealReadWarns = false) :
+    FinOwnsLineFull c := by
+  intro io fs0 evs hne
+  apply fin_owns_line_committed c hfix hshape io fs0 evs
+  intro e he
+  have := hne e he
+  cases hev : e.1 with
+  | ext p d => rw [hev] at this; cases this
+  | extAppend p d => rw [hev] at this; cases this
+  | _ => trivial
+
+/-- **what still holds under F47b when files are unreadable** (any fault schedule, `unreadable` included): if every
+pre-existing file and every file another process drops is empty or ends in "\n", every FINished message owns its line.
+Instance of `fin_owns_line_partial`; together with `fin_owns_line_F47b_partial` the hypothesis of the tree's guarantee
+reads: *every existing file the tool appends to is readable by it, or is empty / newline-terminated*. -/
+theorem fin_owns_line_unreadable_partial (c : Cfg) (_hshape : c.sealReadWarns = true) (io : Nat → Fault) (fs0 : FS)
+    (hfs0 : ∀ p f, fs0.get p = some f → nlEnded f.content)
+    (evs : List (Ev × Bool)) (henv : ∀ e ∈ evs, EnvOk c true e.1) :
+    LinesSafe (run c io (init fs0) evs).fs (run c io (init fs0) evs).finished :=
+  fin_owns_line_partial c io fs0 hfs0 evs henv
 
 /-! ### audit C4: two routers, one plain file (`--filename-format` without `<TOPIC>`) -/
 
@@ -229,14 +327,15 @@ theorem shared_file_unfixed_witness :
 
 /-- **with fix F46 the line-level statement survives a second writer**: every router writes each record with one
 O_APPEND write(2), so what the other router appends is a sequence of whole records (`EnvOk`), and with F47 (or O_EXCL,
-where files are never shared) every FINished message owns its line. Instance of `fin_owns_line_fixed`. -/
+where files are never shared) every FINished message owns its line. Instance of `fin_owns_line_fixed`, with its
+shape-guarded hypothesis (F47b: `ReadsOk io`, the shared file is readable by this router). -/
 theorem shared_file_lines_fixed (c : Cfg) (h46 : c.oneWrite = true) (h47 : c.sealsTail = true) (io : Nat → Fault)
-    (fs0 : FS) (evs : List (Ev × Bool))
+    (hrd : c.sealReadWarns = true → ReadsOk io) (fs0 : FS) (evs : List (Ev × Bool))
     (henv : ∀ e ∈ evs, match e.1 with
       | .extAppend _ d => nlEnded d
       | _ => True) :
     LinesSafe (run c io (init fs0) evs).fs (run c io (init fs0) evs).finished := by
-  apply fin_owns_line_fixed c h47 io fs0 evs
+  apply fin_owns_line_fixed c h47 io hrd fs0 evs
   intro e he
   have := henv e he
   cases hev : e.1 with
@@ -244,32 +343,62 @@ theorem shared_file_lines_fixed (c : Cfg) (h46 : c.oneWrite = true) (h47 : c.sea
   | ext p d => intro hh; cases hh
   | _ => trivial
 
-/-- the configuration of THIS tree: whatever the operator's options `c`, the two shape parameters are the Bools
-computed from the regenerated skeletons of `router()` / `updateFile()` (`Tie.ToolsToFile.routerOneWrite`,
-`updateFileSeals`) -/
+/-- the configuration of THIS tree: whatever the operator's options `c`, the three shape parameters are the Bools
+computed from the regenerated skeletons of `router()` / `updateFile()` / `sealTornTail()` (`Tie.ToolsToFile.routerOneWrite`,
+`updateFileSeals`, `sealReadWarns`) -/
 def treeCfg (c : Cfg) : Cfg :=
-  { c with oneWrite := Nsq.Tie.ToolsToFile.routerOneWrite, sealsTail := Nsq.Tie.ToolsToFile.updateFileSeals }
+  { c with oneWrite := Nsq.Tie.ToolsToFile.routerOneWrite, sealsTail := Nsq.Tie.ToolsToFile.updateFileSeals,
+           sealReadWarns := Nsq.Tie.ToolsToFile.sealReadWarns }
 
 /-- **THIS tree** (F46 = /repo 85f4c48 and F47 = /repo efaf20c are committed; audit B12): the ties accept only the fixed
-skeletons and decide both Bools `true`, so for every option set, every initial directory (torn tails included), every
-fault schedule and every event list in which other writers append whole records, every FINished message owns a line.
-A tree that reverts F46 or F47 fails `tree_one_write` / `tree_seals_tail` and this theorem with it. -/
-theorem fin_owns_line_this_tree (c : Cfg) (io : Nat → Fault) (fs0 : FS) (evs : List (Ev × Bool))
+skeletons of `router()` / `updateFile()` and decide both Bools `true`; `sealTornTail` is the committed function or the
+one of the follow-up F47b (`Tie.ToolsToFile.sealTornTail_known_shapes`), `treeCfg.sealReadWarns` says which. For every
+option set, every initial directory (torn tails included), every fault schedule and every event list in which other
+writers append whole records, every FINished message owns a line — on the committed shape unconditionally (the
+hypothesis below is vacuous there); **on the F47b shape under the hypothesis that
+every existing file the tool re-opens is readable by it** (`ReadsOk io`; refuted without: `fin_owns_line_F47b_full_false`;
+for unreadable files that are empty / newline-terminated: `fin_owns_line_unreadable_partial`).
+A tree that reverts F46 or F47 fails `tree_one_write` / `tree_seals_tail` and this theorem with it.
+AFTER F47b IS COMMITTED: the hypothesis becomes plain `ReadsOk io` (use `Tie.ToolsToFile.tree_seal_read_warns`). -/
+theorem fin_owns_line_this_tree (c : Cfg) (io : Nat → Fault)
+    (hreadable : (treeCfg c).sealReadWarns = true → ReadsOk io) (fs0 : FS) (evs : List (Ev × Bool))
     (henv : ∀ e ∈ evs, match e.1 with
       | .extAppend _ d => nlEnded d
       | _ => True) :
     LinesSafe (run (treeCfg c) io (init fs0) evs).fs (run (treeCfg c) io (init fs0) evs).finished :=
   shared_file_lines_fixed (treeCfg c) Nsq.Tie.ToolsToFile.tree_one_write Nsq.Tie.ToolsToFile.tree_seals_tail
-    io fs0 evs henv
+    io hreadable fs0 evs henv
 
 /-! ### non-vacuity -/
 
-/-- the tree's configuration of the plain-append options is the fully fixed one -/
-example : treeCfg cfgAppend = { cfgAppend with oneWrite := true, sealsTail := true } := by
-  simp [treeCfg, Nsq.Tie.ToolsToFile.tree_one_write, Nsq.Tie.ToolsToFile.tree_seals_tail]
+/-- the tree's configuration of the plain-append options is the fully fixed one, in one of the two accepted shapes -/
+example : treeCfg cfgAppend = cfgCommitted ∨ treeCfg cfgAppend = cfgWarns := by
+  rcases Nsq.Tie.ToolsToFile.sealTornTail_known_shapes with ⟨h, _⟩ | ⟨h, _⟩
+  · left; simp [treeCfg, cfgCommitted, cfgAppend, Nsq.Tie.ToolsToFile.tree_one_write, Nsq.Tie.ToolsToFile.tree_seals_tail, h]
+  · right; simp [treeCfg, cfgWarns, cfgCommitted, cfgAppend, Nsq.Tie.ToolsToFile.tree_one_write, Nsq.Tie.ToolsToFile.tree_seals_tail, h]
+/-- the hypotheses of `fin_owns_line_this_tree` / `fin_owns_line_F47b_partial` are satisfiable (a schedule with stops and
+write errors but no read error) and `ReadsOk` is what the F47b witness violates -/
+example : ReadsOk noFault ∧ ReadsOk (fun k => if k = 2 then .kill else if k = 5 then .err else .ok) ∧ ¬ ReadsOk unreadable :=
+  ⟨fun t => by simp [noFault], fun t => by show (if t = 2 then Fault.kill else if t = 5 then Fault.err else Fault.ok) ≠ .rdErr; (repeat' split) <;> simp, fun h => h 0 rfl⟩
+/-- `fin_owns_line_committed` / `fin_owns_line_F47b_partial` / `fin_owns_line_unreadable_partial`: their configurations -/
+example : cfgCommitted.sealsTail = true ∧ cfgCommitted.sealReadWarns = false ∧ cfgWarns.sealsTail = true ∧
+    cfgWarns.sealReadWarns = true ∧ cfgWarns.excl = false := by decide
+/-- F47b on an unreadable but newline-terminated file: appended to unsealed, and that is fine -/
+example : (run cfgWarns unreadable (init (FS.empty.set pT ⟨[65, 10], [], 2⟩)) evB).finished = [mB] ∧
+    (run cfgWarns unreadable (init (FS.empty.set pT ⟨[65, 10], [], 2⟩)) evB).fs.get pT = some ⟨[65, 10, 66, 10], [], 4⟩ := by
+  decide
+/-- F47b on a readable torn file with a failing WRITE of the newline: fatal in both shapes, nothing FINished -/
+example : (run cfgWarns (fun k => if k = 1 then .err else .ok) (init fsTorn) evB).status = .fatalExit ∧
+    (run cfgWarns (fun k => if k = 1 then .err else .ok) (init fsTorn) evB).finished = [] ∧
+    (run cfgCommitted (fun k => if k = 1 then .err else .ok) (init fsTorn) evB).status = .fatalExit := by decide
+/-- an unreadable EMPTY file is not read at all (`f.filesize > 0`): no exit on the committed shape -/
+example : (run cfgCommitted unreadable (init (FS.empty.set pT ⟨[], [], 0⟩)) evB).finished = [mB] := by decide
+/-- restart / pending / shared-file theorems: their guarded hypothesis is dischargeable on both shapes -/
+example : (cfgCommitted.sealReadWarns = true → ReadsOk unreadable) ∧ (cfgWarns.sealReadWarns = true → ReadsOk noFault) :=
+  ⟨fun h => by simp [cfgCommitted, cfgAppend] at h, fun _ t => by simp [noFault]⟩
 
 /-- whole-record interleaving of two fixed routers: `"C\n"` by the other router, `"B\n"` by this one, `"D\n"` … -/
-def cfgFixed : Cfg := { cfgAppend with oneWrite := true, sealsTail := true }
+def cfgFixed : Cfg := cfgCommitted
 def evSharedFixed : List (Ev × Bool) :=
   [(.ext pT [], false), (.extAppend pT [67, 10], false), (.msg mB 0 "t", false), (.extAppend pT [68, 10], false),
    (.msg mA 0 "t", false)]
@@ -338,6 +467,6 @@ example : ¬ nlEnded (File.content ⟨[65], [], 1⟩) := by
     obtain ⟨a, ha⟩ := h
     have h2 := congrArg List.getLast? ha
     simp [File.content] at h2
-example : cfgAppend.excl = false ∧ (⟨true, 0, 0, false, false, 1, true, false, false, false⟩ : Cfg).excl = true := by decide
+example : cfgAppend.excl = false ∧ (⟨true, 0, 0, false, false, 1, true, false, false, false, false⟩ : Cfg).excl = true := by decide
 
 end Nsq.Props.C19Lines
